@@ -197,6 +197,15 @@ func init() {
 			}
 			fmt.Fprintf(w, "def workbookScopeName : String := %s\n", leanStr(wbName))
 		}
+		if fd := funcDecl("File", "DeleteDefinedName"); fd == nil {
+			fail("func DeleteDefinedName")
+		} else {
+			b := src(fd.Body)
+			fmt.Fprintf(w, "def deleteDefinedNameByScope : Bool := %v\n",
+				strings.Contains(b, "f.getDefinedNameScope(definedName.Scope)") &&
+					strings.Contains(b, "sameDefinedNameScope(dn.LocalSheetID, localSheetID) && dn.Name == definedName.Name") &&
+					strings.Contains(b, "return ErrDefinedNameScope"))
+		}
 		if fd := funcDecl("File", "copySheet"); fd == nil {
 			fail("func copySheet")
 		} else {
